@@ -19,6 +19,7 @@ import (
 	"context"
 	"encoding/hex"
 	"fmt"
+	"io"
 	"net"
 
 	"strconv"
@@ -177,21 +178,26 @@ END\r\n
 			if err != nil {
 				return fmt.Errorf("Byte count is not a number: %s", string(command))
 			}
-			count := v
+			if v < 0 {
+				return fmt.Errorf("Byte count is negative: %s", string(command))
+			}
 
-			buff := make([]byte, 80)
+			// read the data block: keep its first 80 bytes for the event,
+			// discard the rest and the terminating \r\n, so that the next
+			// command starts where this one ends
+			keep := v
+			if keep > 80 {
+				keep = 80
+			}
 
-			n, err := b.Read(buff)
-			if err != nil {
+			buff := make([]byte, keep)
+			if _, err := io.ReadFull(b, buff); err != nil {
 				return err
 			}
 
-			buff = buff[:n]
-
-			// discard rest of payload
-			count -= n
-
-			b.Discard(count)
+			if _, err := b.Discard(v - keep + 2); err != nil {
+				return err
+			}
 
 			s.ch.Send(event.New(
 				EventOptions,
